@@ -671,7 +671,9 @@ def _prove_one(ground, foralls, guards, goal, timeout_ms, want_model):
             _os.makedirs(DUMP_DIR, exist_ok=True)
             with open(_os.path.join(DUMP_DIR, 'p%d_q%04d_%d.smt2' % (_os.getpid(), next(_dump_counter), stage)), 'w') as fdump:
                 fdump.write(smt2)
-        tmo = max(2000, int(timeout_ms * tfrac))
+        # early stages get a share of the budget but never more than 15 s: a larger overall budget (thorough tier)
+        # must not make obligations that are only provable with the later, wider instantiations slower
+        tmo = max(2000, int(timeout_ms * tfrac)) if final else max(2000, min(15000, int(timeout_ms * tfrac)))
         # first the real relaxation with functions abstracted (pure QF_NRA -> nlsat); only an
         # `unsat` answer of the relaxed query is used (see relax.py)
         if _nonlinear(s.assertions()):
